@@ -21,12 +21,12 @@ CHARGE_POOL = {
 }
 
 
-def rand_index(rng, sym, maxc=3, maxd=2, dual=None, unit=False):
+def rand_index(rng, sym, maxc=3, maxd=2, dual=None, unit=False, minc=1):
     pool = CHARGE_POOL[sym]
     if unit:
         c = rng.choice(pool) if rng.random() < 0.5 else (0, 0)
         return {"dual": rng.random() < 0.5 if dual is None else dual, "cm": [{"c": list(c), "d": 1}]}
-    n = rng.randint(1, min(maxc, len(pool)))
+    n = rng.randint(min(minc, len(pool), maxc), min(maxc, len(pool)))
     cs = sorted(rng.sample(pool, n))
     return {
         "dual": (rng.random() < 0.5) if dual is None else dual,
@@ -52,9 +52,9 @@ def possible_charges(sym, ixs):
 
 def rand_array(rng, sym, rank, kind="abelian", ixs=None, charge=None, parity=None,
                sparse=0.5, dtype="float64", cls=None, start=None, maxc=3, maxd=2, oddpos=None,
-               phases=0.0, unit_prob=0.0):
+               phases=0.0, unit_prob=0.0, minc=1):
     if ixs is None:
-        ixs = [rand_index(rng, sym, maxc, maxd, unit=rng.random() < unit_prob) for _ in range(rank)]
+        ixs = [rand_index(rng, sym, maxc, maxd, unit=rng.random() < unit_prob, minc=minc) for _ in range(rank)]
     if charge is None:
         cands = possible_charges(sym, ixs)
         if parity is not None:
